@@ -67,7 +67,7 @@ func prepCase(idx int, p *Prog, origin string, ownPkgInfo bool) *progCase {
 		pc.Expect = EvalResult{Out: p.RawOut}
 		return pc
 	}
-	pc.Src = ToFolangOpts(p, PrintOpts{Suffix: pc.Suffix, MainName: "main" + pc.Suffix, OwnPkgInfo: ownPkgInfo, Tiny: ownPkgInfo})
+	pc.Src = ToFolangOpts(p, PrintOpts{Suffix: pc.Suffix, MainName: "main" + pc.Suffix, OwnPkgInfo: ownPkgInfo, Tiny: ownPkgInfo, OmitParens: p.OmitParens || len(p.ToSexp())%2 == 1})
 	pc.Expect = Eval(p, 400000)
 	return pc
 }
